@@ -79,6 +79,17 @@ Example C04_crash_in_recovery_ex :
   snd (after_effects (encode ex_log) ex_main (firstn 4 (recovery_effects false (encode ex_log) ex_main))) = [65;65;1;2;3;0;0;0].
 Proof. vm_compute. repeat split; reflexivity. Qed.
 
+(* a successful recovery always leaves an empty log, even when it found no savepoint and applied nothing *)
+Theorem C04_recovery_truncates_log : forall ccrc L D ops,
+  L <> [] -> replay_ops ccrc 1 0 L = (VOk, ops) ->
+  fst (after_effects L D (recovery_effects ccrc L D)) = [].
+Proof. exact recovery_truncates_log. Qed.
+Print Assumptions C04_recovery_truncates_log.
+Example C04_recovery_truncates_log_ex :
+  let L := firstn 30 (encode ex_log) in   (* cut before the first savepoint: nothing to apply *)
+  L <> [] /\ replay_ops false 1 0 L = (VOk, []) /\ after_effects L ex_main (recovery_effects false L ex_main) = ([], ex_main).
+Proof. vm_compute. repeat split; try reflexivity. discriminate. Qed.
+
 (* growth in mid-operation: refutation of the full statement on the model (known finding) *)
 Theorem C04_growth_tears_refuted :
   let (s, fx) := run gt_cfg gt_s0 gt_events in
